@@ -164,11 +164,10 @@ func main() {
 	}
 	defer sv.Close()
 
-	e := &Engine{prog: prog, solver: sv, natives: map[string]NativeFn{}, subst: map[string]*ssa.Function{}, fninfo: map[*ssa.Function]*FnInfo{}}
+	e := &Engine{prog: prog, solver: sv, natives: map[string]NativeFn{}, subst: map[string]*ssa.Function{}, groupSubst: map[string]map[string]*ssa.Function{}, fninfo: map[*ssa.Function]*FnInfo{}}
 	e.cfg = Config{BranchTimeoutMs: *branchTO, AssertTimeoutMs: *assertTO, MaxPaths: *maxPaths, MaxSteps: 5000000, Unwind: *unwind, MaxSeconds: *maxSec, Verbose: *verbose, AllocBound: true}
 	e.allow = func(p string) bool {
-		return strings.HasPrefix(p, "github.com/cloudflare/pat-go") || strings.HasPrefix(p, "hmod/") ||
-			strings.HasSuffix(p, "golang.org/x/crypto/cryptobyte") || strings.HasSuffix(p, "golang.org/x/crypto/cryptobyte/asn1") || extraAllow[p]
+		return strings.HasPrefix(p, "github.com/cloudflare/pat-go") || strings.HasPrefix(p, "hmod/") || extraAllow[p]
 	}
 	opaqueErrType = types.NewNamed(types.NewTypeName(0, nil, "opaqueError", nil), types.NewStruct(nil, nil), nil)
 	e.registerIntrinsics()
@@ -227,6 +226,23 @@ func main() {
 					fmt.Fprintf(os.Stderr, "    ABORT %s\n", trunc(a, 400))
 				}
 			}
+			if *verbose >= 3 {
+				type kv struct {
+					k string
+					v int
+				}
+				var kvs []kv
+				for k, v := range forkSites {
+					kvs = append(kvs, kv{k, v})
+				}
+				sort.Slice(kvs, func(i, j int) bool { return kvs[i].v > kvs[j].v })
+				for i, x := range kvs {
+					if i < 12 {
+						fmt.Fprintf(os.Stderr, "    forks %5d at %s\n", x.v, x.k)
+					}
+				}
+			}
+			forkSites = map[string]int{}
 			if len(r.Degraded) > 0 {
 				fmt.Fprintf(os.Stderr, "    havocked callees: %v\n", r.Degraded)
 			}
